@@ -272,6 +272,13 @@ func (c *Ctx) meltDecisionTable(r1 string, full bool) {
 		if ln == nil {
 			return
 		}
+		// what counts as a definitive failure: in the melt operation the look-up follows the operation's own pay
+		// call, so "no such payment" means it was never attempted. The poll can run while that pay call is still in
+		// flight (the backend may not know the payment yet): there only a look-up that answers Failed is definitive.
+		defFail := ln.definitiveFail
+		if opInfo.name == "poll" {
+			defFail = &Cond{Name: "definitive failure (look-up status Failed with a nil error)", Match: ln.lookFailed.Match}
+		}
 		inputs := ""
 		if opInfo.name == "melt" {
 			inputs = c.inputsOf(r1, melt)
@@ -308,9 +315,9 @@ func (c *Ctx) meltDecisionTable(r1 string, full bool) {
 					opInfo.name+": a settle (unlock followed by mark-spent) happens only on success", why)
 				continue
 			}
-			ok, why := c.RequireAt(s.Instr, ln.definitiveFail)
+			ok, why := c.RequireAt(s.Instr, defFail)
 			R.Check(r1, fk, "UNLOCK(release) "+siteDesc(c, s)+" <= definitive failure", c.P.InstrPos(s.Instr), ok,
-				opInfo.name+": inputs are released only when the look-up says 'no such payment' or reports Failed", why)
+				opInfo.name+": inputs are released only on "+defFail.Name, why)
 			if opInfo.name == "melt" {
 				ok, why = c.RequireAt(s.Instr, ln.payFailed)
 				R.Check(r1, fk, "UNLOCK(release) "+siteDesc(c, s)+" <= pay classified Failed", c.P.InstrPos(s.Instr), ok,
@@ -364,7 +371,7 @@ func (c *Ctx) meltDecisionTable(r1 string, full bool) {
 					R.Check(r1, fk, "SET(PAID) "+siteDesc(c, s)+" preimage from the tested answer", pos, ok, "the stored preimage is the one of the answer whose status was Succeeded", why)
 				}
 			case isConst(val, unpaid):
-				ok, why := c.RequireAt(s.Instr, ln.definitiveFail)
+				ok, why := c.RequireAt(s.Instr, defFail)
 				R.Check(r1, fk, "SET(UNPAID) "+siteDesc(c, s)+" <= definitive failure", pos, ok, opInfo.name+": the quote is set UNPAID only on a definitive failure", why)
 			case isConst(val, pendingQ):
 				// the PENDING write precedes the pay call (C01.R4 / C07 decide the ordering)
@@ -411,8 +418,8 @@ func (c *Ctx) meltDecisionTable(r1 string, full bool) {
 			{succCond, unlockCond, "success => inputs unlocked"},
 			{succCond, spentSame, "success => inputs marked spent"},
 			{succCond, setPaid, "success => quote PAID"},
-			{ln.definitiveFail, setUnpaid, "definitive failure => quote UNPAID"},
-			{ln.definitiveFail, unlockCond, "definitive failure => inputs unlocked"},
+			{defFail, setUnpaid, "definitive failure => quote UNPAID"},
+			{defFail, unlockCond, "definitive failure => inputs unlocked"},
 		} {
 			found := false
 			ok, why, n := true, "", 0
@@ -619,6 +626,26 @@ func (c *Ctx) c05Backends() {
 						zero = true
 					}
 				}
+				// an answer returned with a nil error carries a status that is an explicit constant on every path:
+				// a status computed from the backend's text (table look-up, conversion) reads as the zero value
+				// - Succeeded - for any answer the table does not know
+				if !o.IsFailureReturn(r) {
+					computed := ""
+					for _, a := range st.Alts() {
+						if a.K != "const" && a.K != "zero" {
+							computed = a.String()
+						}
+					}
+					if computed != "" {
+						if fromOwnTable(computed) {
+							R.Trivial("R3", fk, "status read from the backend's own record", c.P.InstrPos(r), "the in-memory test backend answers with the status stored in its own invoice table")
+						} else {
+							R.Check("R3", fk, "status of a nil-error answer is an explicit constant", c.P.InstrPos(r), false,
+								"every status returned with a nil error is one of the State constants chosen by an explicit case (an unknown backend answer must not read as the zero value Succeeded)", "status is computed: "+short(computed, 120))
+						}
+						continue
+					}
+				}
 				if !zero {
 					R.Trivial("R3", fk, "return with explicit non-success status", c.P.InstrPos(r), "status is set explicitly to a non-success value")
 					continue
@@ -640,6 +667,11 @@ func (c *Ctx) c05Backends() {
 			}
 		}
 	}
+}
+
+// fromOwnTable: the status is read from the Invoices table of the in-memory fake backend (set by SetInvoiceStatus).
+func fromOwnTable(e string) bool {
+	return strings.Contains(e, ".Invoices") && strings.Contains(e, ".Status")
 }
 
 // ruleResolveBeforeAnswer: the proof-state check calls the melt-quote poll for the pending quotes before the reads
